@@ -429,6 +429,11 @@ func (in *interp) indexAddr(instr *ssa.IndexAddr, x, idx value) *value {
 	default:
 		panic(fmt.Sprintf("unexpected x type in IndexAddr: %T", x))
 	}
+	if it := in.ext64(idx, instr.Index.Type()); !it.IsConst() && len(s) > 16 && len(s) <= 1024 {
+		if cell := in.tableLookup(instr, s, it); cell != nil {
+			return cell
+		}
+	}
 	i, ok := in.concInt(in.ext64(idx, instr.Index.Type()), 0, int64(len(s))-1, "index")
 	if !ok {
 		panic(rtPanic("index out of range [%s] with length %d", toString(idx), len(s)))
@@ -445,6 +450,44 @@ func (in *interp) indexAddr(instr *ssa.IndexAddr, x, idx value) *value {
 		in.lazyCells = append(in.lazyCells, &s[i])
 	}
 	return &s[i]
+}
+
+// tableLookup handles a read of a table of constants at a symbolic index (utf8.first[b],
+// crc tables, ...) without case-splitting on the index: the element becomes an if-then-else chain
+// over the index. It applies only when every use of the address is a load and every element is a
+// constant of one width; it returns nil otherwise.
+func (in *interp) tableLookup(instr *ssa.IndexAddr, s []value, idx *sym.Term) *value {
+	refs := instr.Referrers()
+	if refs == nil || len(*refs) == 0 {
+		return nil
+	}
+	for _, r := range *refs {
+		u, ok := r.(*ssa.UnOp)
+		if !ok || u.Op != token.MUL {
+			return nil
+		}
+	}
+	var w uint8
+	for _, e := range s {
+		t, ok := e.(*sym.Term)
+		if !ok || !t.IsConst() || t.W == 0 || (w != 0 && t.W != w) {
+			return nil
+		}
+		w = t.W
+	}
+	n := in.ctx.Const(64, uint64(len(s)))
+	if !in.cur().branch(in.ctx.Cmp(sym.OpULt, idx, n), "table-index-in-range") {
+		panic(rtPanic("index out of range [%s] with length %d", toString(idx), len(s)))
+	}
+	// runs of equal elements become one comparison each: ite(idx < end of run 1, v1, ite(idx < end of run 2, v2, ...))
+	res := s[len(s)-1].(*sym.Term)
+	for i := len(s) - 2; i >= 0; i-- {
+		if e := s[i].(*sym.Term); e != s[i+1].(*sym.Term) {
+			res = in.ctx.Ite(in.ctx.Cmp(sym.OpULt, idx, in.ctx.Const(64, uint64(i+1))), e, res)
+		}
+	}
+	var cell value = res
+	return &cell
 }
 
 func (in *interp) index(instr *ssa.Index, x, idx value) value {
